@@ -6,6 +6,9 @@ use crate::mgmt::*;
 use crate::proto::*;
 
 fn granted(out: &str) -> Vec<bool> { out.bytes().map(|c| c == b't').collect() }
+/// decided and refused (an evaluation error is neither a grant nor a denial: C06 makes it fail closed, and taking away the
+/// malformed rule that caused it may well uncover a grant)
+fn not_denied(out: &str) -> Vec<bool> { out.bytes().map(|c| c != b'f').collect() }
 
 /// is `a` included in `b` (pointwise implication)? returns the first counterexample index
 fn incl(a: &[bool], b: &[bool]) -> Option<usize> { a.iter().zip(b.iter()).position(|(x, y)| *x && !*y) }
@@ -42,8 +45,11 @@ pub fn run(rec: &mut Recorder, w: &mut World, tier: &str, seed: u64) {
         let mut links = gen_links(&mut rng, &k);
         for l in links.iter_mut() { l.truncate(if big { 15 } else { 3 }); l.dedup(); }
         rec.begin();
+        // every fourth configuration runs on a CachedEnforcer (the property is about what callers observe)
+        let cached = ci % 4 == 3;
+        if cached { rec.exec(w, "e.cached\ttrue"); rec.count("enforcer:cached"); }
         let r0 = new_enforcer(rec, w, &m, "memory", &lines_of("p", &rules, &k.g, &links), "", false);
-        if r0 != "ok" { continue; }
+        if r0 != "ok" { if cached { rec.exec(w, "e.cached\tfalse"); } continue; }
         let reqs = requests(&k);
         let reqf = enc_reqs(&reqs);
         let steps = 1 + rng.below(4);
@@ -53,6 +59,10 @@ pub fn run(rec: &mut Recorder, w: &mut World, tier: &str, seed: u64) {
         for _ in 0..steps {
             // one single-step addition / removal of a rule or a link
             let (line, kind): (String, &str) = match rng.below(if k.g.is_empty() { 2 } else { 4 }) {
+                // under allow-override sometimes a rule with a field too few or too many (an error when reached — never a grant),
+                // sometimes one batch naming the new rule twice
+                0 if mode == "allow-override" && rng.chance(1, 8) => { let mut r = gen_rule(&mut rng, &k, with_eft); if rng.chance(1, 2) { r.pop(); } else { r.push("extra".to_string()); } rec.count("step:add-rule-of-wrong-length"); (MOp::Add("p".into(), "p".into(), r).line(), "add-rule") }
+                0 if rng.chance(1, 6) => { let r = gen_rule(&mut rng, &k, with_eft); rec.count("step:batch-with-repeated-rule"); (MOp::AddM("p".into(), "p".into(), vec![r.clone(), r]).line(), "add-rule") }
                 0 => { let r = gen_rule(&mut rng, &k, with_eft); (MOp::Add("p".into(), "p".into(), r).line(), "add-rule") }
                 1 => { if cur_rules.is_empty() { continue; } let r = cur_rules[rng.below(cur_rules.len())].clone(); (MOp::Rm("p".into(), "p".into(), r).line(), "remove-rule") }
                 2 => { let gi = rng.below(k.g.len()); let r = rng.pick(&k.links[gi]).clone(); (MOp::Add("g".into(), k.g[gi].0.clone(), r).line(), "add-link") }
@@ -64,11 +74,11 @@ pub fn run(rec: &mut Recorder, w: &mut World, tier: &str, seed: u64) {
             let after = rec.exec(w, &format!("e.enfs\t{}", reqf));
             let (gb, ga) = (granted(&before), granted(&after));
             let f = line.split('\t').collect::<Vec<_>>();
-            let rule_fields = dec_list(f[3]);
+            let rule_fields = if f[0] == "e.addm" { dec_lists(f[3]).into_iter().next().unwrap_or_default() } else { dec_list(f[3]) };
             let is_deny_rule = with_eft && rule_fields.last().map(|x| x == "deny").unwrap_or(false);
             let viol: Option<(usize, &str)> = match (mode, kind) {
                 ("allow-override", "add-rule") | ("allow-override", "add-link") => incl(&gb, &ga).map(|i| (i, "an addition revoked a grant")),
-                ("allow-override", "remove-rule") | ("allow-override", "remove-link") => incl(&ga, &gb).map(|i| (i, "a removal granted a request")),
+                ("allow-override", "remove-rule") | ("allow-override", "remove-link") => incl(&ga, &not_denied(&before)).map(|i| (i, "a removal granted a request")),
                 (_, "add-rule") if mode != "allow-override" && is_deny_rule => incl(&ga, &gb).map(|i| (i, "adding a deny rule granted a request")),
                 (_, "remove-rule") if mode != "allow-override" && is_deny_rule => incl(&gb, &ga).map(|i| (i, "removing a deny rule denied a request")),
                 _ => None,
@@ -81,10 +91,11 @@ pub fn run(rec: &mut Recorder, w: &mut World, tier: &str, seed: u64) {
                 let sig = if (store_was_empty && kind == "add-rule") || (store_is_empty && kind == "remove-rule") { "empty-store-grant" } else { "not-monotone" };
                 rec.fail(sig, format!("[{} {}] {}: request {:?} went {} -> {} after {} (matcher {})", k.name, mode, what, reqs[i], &before[i..i + 1], &after[i..i + 1], descr.join(" ; "), m.m[0].2));
             }
-            if line.starts_with("e.add\tp") && res == "true" { cur_rules.push(rule_fields.clone()); }
+            if (line.starts_with("e.add\tp") || line.starts_with("e.addm\tp")) && res == "true" { cur_rules.push(rule_fields.clone()); }
             if line.starts_with("e.rm\tp") && res == "true" { cur_rules.retain(|r| *r != rule_fields); }
             before = after;
         }
+        if cached { rec.exec(w, "e.cached\tfalse"); }
         rec.nontrivial_case(&format!("{}|{}|{:?}|{:?}|{}", m.m[0].2, mode, rules, links, descr.join("|")));
         if ci < 3 { rec.sample(format!("matcher={} mode={} rules={:?} links={:?} steps={}", m.m[0].2, mode, rules, links, descr.join(" ; "))); }
     }
